@@ -345,11 +345,38 @@ static void run_aba(void)
 	final_checks("aba", -1);
 }
 
+/* mutex scheme: pop_all followed by an immediate re-push of the node that was on top, racing with a pop
+ * (the pop/pop_all mutual exclusion is what makes immediate reuse legal: no ABA) */
+static void run_repush(void)
+{
+	pthread_t a;
+	long enc, top;
+	int pushes = 2;
+
+	s_init();
+	do_push(2);
+	do_push(1);
+	pthread_create(&a, NULL, t_pop1, NULL);
+	enc = do_pop_all();
+	for (top = enc; top >= 8; top /= 8)
+		;
+	if (top > 0) {
+		cds_wfs_node_init(&items[top].w);
+		cds_lfs_node_init(&items[top].l);
+		do_push((int)top);	/* reuse right away */
+		pushes++;
+	}
+	pthread_join(a, NULL);
+	drain();
+	final_checks("repush", pushes);
+}
+
 struct vrt_scenario vrt_scenarios[] = {
 	{ "pp", run_pp, "2 pushers || popper" },
 	{ "pop2", run_pop2, "pusher || 2 poppers (sync 0 or 2)" },
 	{ "popall", run_popall, "pusher || pop_all || pop" },
 	{ "last", run_last, "push racing with pop of the last node" },
 	{ "aba", run_aba, "node recycled after a grace period (sync 2)" },
+	{ "repush", run_repush, "pop_all + immediate re-push of the top node || pop (mutex scheme, sync 0)" },
 	{ NULL, NULL, NULL }
 };
